@@ -268,6 +268,13 @@ func (multiSource *MultiSource) processDependency(ctx context.Context, dep Depen
 						}
 						if len(changes.Entities) > 0 {
 							timestamp := int64(changes.Entities[0].Recorded)
+							// that change can belong to the same commit as the first change of this page (a commit
+							// larger than a page, or a page boundary inside it). The link removed by that commit is
+							// then already gone at its stamp: look at the instant before the commit instead
+							first, err7 := depDataset.GetChanges(depSince.AsIncrToken(), 1, false)
+							if err7 == nil && len(first.Entities) > 0 && int64(first.Entities[0].Recorded)-1 < timestamp {
+								timestamp = int64(first.Entities[0].Recorded) - 1
+							}
 							// create a copy of relatedFrom with back-dated timestamp
 							prevRelatedFrom := relatedFrom
 							prevRelatedFrom.At = timestamp
